@@ -5,6 +5,7 @@ import (
 	"errors"
 	"fmt"
 	"sync"
+	"sync/atomic"
 	"testing"
 	"time"
 
@@ -31,7 +32,18 @@ func TestC20RpcCsvWatcher(t *testing.T) {
 		var mu sync.Mutex
 		w := txwatcher.NewBlockchainRpcTxWatcher(context.Background(), &rpcFake{c}, 3)
 		obsStart := 0
+		// the csv callback is the swap state machine: it may take a while (the first report is held at a
+		// gate the history opens), and the next block can arrive while it is still running
+		gate := make(chan struct{})
+		var held atomic.Bool
+		holdFirst := rapid.Bool().Draw(t, "reportHeld")
 		w.AddCsvCallback(func(swapId string) error {
+			if holdFirst && held.CompareAndSwap(false, true) {
+				select {
+				case <-gate:
+				case <-time.After(2 * time.Second):
+				}
+			}
 			best := snap{}
 			confs, tip := c.Depth(txid)
 			best = snap{tip: tip, confs: confs}
@@ -60,6 +72,25 @@ func TestC20RpcCsvWatcher(t *testing.T) {
 		waitUntil(func() bool { return c.Calls() > callsBefore }, 300*time.Millisecond)
 		time.Sleep(500 * time.Microsecond)
 		ops = append(ops, fmt.Sprintf("register-after(%d)", pre))
+		if holdFirst {
+			// blocks arrive while the first report (if there is one already) is still being processed
+			for k, nb := 0, rapid.IntRange(0, 2).Draw(t, "blocksWhileHeld"); k < nb; k++ {
+				c.Mine(1)
+				_, tip := c.Depth(txid)
+				obsStart = c.SnapCount()
+				c.NoteNotification(tip)
+				done := make(chan struct{})
+				go func() { defer close(done); _ = w.HandleCsvTx(uint64(tip)) }()
+				select {
+				case <-done:
+				case <-time.After(20 * time.Millisecond): // it may legitimately wait for the report in flight
+				}
+				ops = append(ops, "block-while-report-held")
+				classes["block-while-report-held"] = true
+			}
+			close(gate)
+			time.Sleep(time.Millisecond)
+		}
 		steps := rapid.IntRange(1, 10).Draw(t, "steps")
 		for i := 0; i < steps; i++ {
 			op := rapid.SampledFrom([]string{"mine", "mine", "handle", "handle", "reorg", "spend", "rpc-error", "mine-during"}).Draw(t, "op")
